@@ -265,7 +265,7 @@ func (r *rewriter) run() {
 		r.file.Comments = keep
 		clearDocs(r.file)
 		astutil.AddImport(r.fset, r.file, dsPkg)
-		for _, imp := range []struct{ path, name string }{{"time", "time"}, {"math/rand", "rand"}, {"sync", "sync"}} {
+		for _, imp := range []struct{ path, name string }{{"time", "time"}, {"math/rand", "rand"}, {"sync", "sync"}, {"context", "context"}} {
 			name := imp.name
 			found := false
 			for _, is := range r.file.Imports {
@@ -510,6 +510,11 @@ func (r *rewriter) post(c *astutil.Cursor) bool {
 				r.changed = true
 			} else if !syncAllowed[n.Sel.Name] {
 				fatalf("%s: sync.%s is not supported by the simulator", r.site(n), n.Sel.Name)
+			}
+		case r.isPkg(n.X, "context"):
+			if n.Sel.Name == "WithTimeout" || n.Sel.Name == "WithDeadline" {
+				c.Replace(ds(n.Sel.Name))
+				r.changed = true
 			}
 		case r.isPkg(n.X, "reflect"):
 			if n.Sel.Name == "Select" {
